@@ -405,6 +405,8 @@ def _timed_corpus(draw, tier, vocab, unk, points_allowed, min_tokens):
         for _ in range(draw(st.integers(min_tokens, 6 if big else 5))):
             ln = 0 if kind == "points" else draw(st.one_of(st.integers(1, 4), st.integers(1, 12)))
             toks_u.append([draw(tok), pos, pos + ln])
+            if kind == "points" and draw(st.integers(0, 3)) == 0:
+                continue  # the next point coincides with this one: file order is the only order there is
             pos += max(2, ln) + draw(st.integers(0, 3))
         corpus.append({"utt": u, "kind": kind, "tokens": toks_u})
     return corpus
@@ -645,9 +647,10 @@ def _parse_short_textgrid(text, p):
           doc="directory of TextGrids (independent writer: short / Praat long format, 1-2 tiers, interval or point tier, times on the frame "
               "grid, tier chosen by default/name/index, --fill-symbol) -> token dir -> TextGrids (--infer / --feat-dir, --precision "
               "matching the frame shift): original tokens in order, times within one frame + half a print unit, interval tiers stay "
-              "interval tiers, times printed with the requested precision; simulated pool changes no byte",
+              "interval tiers, times printed with the requested precision; point tiers may hold several points at one time (labels in any order: file order is kept); simulated pool changes no byte",
           required_classes=["prefix_p_", "prefix_x.", "kind_points", "kind_segments", "fs_0.0625", "precision_not3", "format_long2",
-                            "fill_gap", "feat_dir", "reordered_completion", "time_ge_10s", "time_ge_1000s", "view_storage_offset", "view_noncontiguous", "stale_out_file", "big_ids"])
+                            "fill_gap", "feat_dir", "reordered_completion", "time_ge_10s", "time_ge_1000s", "view_storage_offset", "view_noncontiguous", "stale_out_file", "big_ids",
+                            "coincident_points_labels_descending"])
 def _tg_dir_tg(case):
     torch = _torch()
     fix, vocab, workers, fs, p = case["fix"], case["vocab"], case["workers"], case["fs"], case["p"]
@@ -756,6 +759,8 @@ def _tg_dir_tg(case):
         cl.append("time_ge_10s")
     if any(_sec(u["tokens"][-1][2], fs) >= 1000 for u in corpus):
         cl.append("time_ge_1000s")
+    if any(u["kind"] == "points" and any(a[1] == b[1] and a[0] > b[0] for a, b in zip(u["tokens"], u["tokens"][1:])) for u in corpus):
+        cl.append("coincident_points_labels_descending")
     cl += _layout_classes(case.get("mid_layout"))
     if case.get("stale_out"):
         cl.append("stale_out_file")
